@@ -1804,6 +1804,179 @@ theorem bezier4_terminates (p0 p1 p2 p3 : V3) (d : Rat) (hd : 0 < d) (n : Nat) (
     n hn hn9
   simpa only [hz, ho] using this
 
+/-! ## termination of B-spline / ellipse flattening under a Lipschitz modulus of the evaluation function -/
+
+/-- `L` is a Lipschitz modulus of the evaluation function `P` on `[lo, hi]` (squared form: no square roots) -/
+def Lipschitz (P : Rat → V3) (L lo hi : Rat) : Prop :=
+  ∀ a b : Rat, lo ≤ a → a ≤ b → b ≤ hi → V3.dist2 (P a) (P b) ≤ L * L * ((b - a) * (b - a))
+
+private theorem chordTest_no_raise (d : Rat) (s e m : V3) : chordTest d s e m ≠ .raise := by
+  unfold chordTest; split <;> simp
+
+/-- **a narrow chord is accepted**: with Lipschitz modulus `L`, the current B-spline / ellipse test
+    (`distance_point_segment_3d(m, s, e) < distance`) accepts every chord of parameter width `h` with `h · L < 2 · distance`
+    (the curve point at the middle parameter is at most `L h / 2` from the chord start, hence from the chord) -/
+theorem chordTest_accepts_lipschitz (P : Rat → V3) (L d lo hi : Rat) (hL : 0 < L) (hd : 0 < d)
+    (hlip : Lipschitz P L lo hi) (t0 t1 : Rat) (hlo : lo ≤ t0) (hhi : t1 ≤ hi) (hlt : t0 < t1)
+    (hw : (t1 - t0) * L < 2 * d) :
+    chordTest d (P t0) (P t1) (P ((t0 + t1) * (1/2))) = .accept := by
+  rw [chordTest_accept_iff]
+  refine ⟨hd, ?_⟩
+  obtain ⟨_, hmin⟩ := segDist2_is_chord_distance (P t0) (P t1) (P ((t0 + t1) * (1/2)))
+  have h0 := hmin 0 (le_refl _) (by norm_num)
+  have hs : V3.dist2 (V3.lerp (P t0) (P t1) 0) (P ((t0 + t1) * (1/2))) = V3.dist2 (P t0) (P ((t0 + t1) * (1/2))) := by
+    rw [v3_ext_dist]; simp [V3.dist2]
+  rw [hs] at h0
+  have hl := hlip t0 ((t0 + t1) * (1/2)) hlo (by linarith) (by linarith)
+  have hhalf : (t0 + t1) * (1/2) - t0 = (t1 - t0) / 2 := by ring
+  rw [hhalf] at hl
+  have hpos : 0 < (t1 - t0) * L := mul_pos (by linarith) hL
+  have hsq : ((t1 - t0) * L) * ((t1 - t0) * L) < (2 * d) * (2 * d) := by nlinarith
+  have : L * L * ((t1 - t0) / 2 * ((t1 - t0) / 2)) < d * d := by nlinarith
+  linarith
+
+/-- **termination of the B-spline / ellipse subdivision with an explicit depth**: with Lipschitz modulus `L` on `[lo, hi]`,
+    every chord `[t0, t1]` inside the range with `(t1 - t0) · L ≤ distance · 2^k` is flattened within `k + 1` recursion
+    levels (`subdiv` of `BSpline.flattening` / `ConstructionEllipse.flattening` returns; removes the hypothesis `hacc` of
+    `recSub_terminates` for the coded test) -/
+theorem recSub_terminates_lipschitz (P : Rat → V3) (L d lo hi : Rat) (hL : 0 < L) (hd : 0 < d)
+    (hlip : Lipschitz P L lo hi) (k : Nat) (t0 t1 : Rat) (hlo : lo ≤ t0) (hhi : t1 ≤ hi) (hlt : t0 < t1)
+    (hk : (t1 - t0) * L ≤ d * 2 ^ k) :
+    ∃ l, recSub ⟨P, chordTest d⟩ (k + 1) t0 (P t0) t1 (P t1) = .ok l := by
+  refine recSub_terminates ⟨P, chordTest d⟩ (d / L) lo hi ?_ (fun s e m => chordTest_no_raise d s e m) k t0 t1 hlo hhi hlt ?_
+  · intro a b ha hb hab hwd
+    refine chordTest_accepts_lipschitz P L d lo hi hL hd hlip a b ha hb hab ?_
+    have : (b - a) * L ≤ d := by
+      have := mul_le_mul_of_nonneg_right hwd hL.le
+      rwa [div_mul_cancel₀ _ hL.ne'] at this
+    linarith
+  · rw [div_mul_eq_mul_div, le_div_iff₀ hL]; exact hk
+
+/-- **`ConstructionEllipse.flattening` terminates** (loop after the prelude) for every evaluation function with a Lipschitz
+    modulus `L` on the parameter range: with recursion budget `k + 1` where `delta · L ≤ distance · 2^k`, and outer fuel
+    `segments + 2`, the run returns a vertex list (which `ellipse_sound` describes) -/
+theorem ellipse_terminates_lipschitz (P : Rat → V3) (L d : Rat) (hL : 0 < L) (hd : 0 < d)
+    (relTol absTol param endParam delta : Rat) (n : Nat) (hδ : 0 < delta) (hn : param + n * delta = endParam)
+    (hlip : Lipschitz P L param endParam)
+    (hnc : pyIsclose relTol absTol param endParam = false)
+    (hsnap : ∀ k : Nat, k + 1 < n → pyIsclose relTol absTol (param + ((k : Rat) + 1) * delta) endParam = false)
+    (k : Nat) (hk : delta * L ≤ d * 2 ^ k) :
+    ∃ out, ellipseFlat ⟨P, chordTest d⟩ (k + 1) relTol absTol param endParam delta (n + 2) = .ok out := by
+  unfold ellipseFlat
+  simp only [hδ.ne', if_false, hnc, Bool.false_eq_true]
+  obtain ⟨st, hst⟩ := spanLoop_total ⟨P, chordTest d⟩ (recSub ⟨P, chordTest d⟩ (k + 1)) (pyIsclose relTol absTol) delta
+    endParam (P endParam) param
+    (fun t0 t1 hlo hhi hlt hwd => recSub_terminates_lipschitz P L d param endParam hL hd hlip k t0 t1 hlo hhi hlt
+      (le_trans (mul_le_mul_of_nonneg_right hwd hL.le) hk))
+    hδ rfl n hn hsnap (n + 2) 0 ⟨param, P param, [(param, P param)]⟩ (Nat.zero_le _) (by simp) rfl (by omega)
+  exact ⟨st.out, by rw [hst]⟩
+
+private theorem knotLoop_total (P : Rat → V3) (L d lo hi : Rat) (hL : 0 < L) (hd : 0 < d) (hlip : Lipschitz P L lo hi)
+    (k : Nat) (hk : (hi - lo) * L ≤ d * 2 ^ k) (close : Rat → Rat → Bool) (segs : Nat) (hsegs : 0 < segs) (a0 : Rat) :
+    ∀ (ks : List Rat) (st : St V3), StrictInc st.t ks → NoEarlySnap close segs st.t ks →
+      Inv ⟨P, chordTest d⟩ a0 st → lo ≤ st.t → (∀ x ∈ ks, x ≤ hi) →
+      ∃ st', knotLoop ⟨P, chordTest d⟩ (recSub ⟨P, chordTest d⟩ (k + 1)) close segs (segs + 2) ks st = .ok st' := by
+  intro ks
+  induction ks with
+  | nil => intro st _ _ _ _ _; exact ⟨st, rfl⟩
+  | cons t1 ks ih =>
+    intro st hinc hns hinv hlo hhi
+    have hsq : (0 : Rat) < segs := by exact_mod_cast hsegs
+    have ht1 : t1 ≤ hi := hhi t1 (by simp)
+    have hδ : 0 < (t1 - st.t) / segs := div_pos (by linarith [hinc.1]) hsq
+    have hδle : (t1 - st.t) / segs ≤ hi - lo := by
+      have h1 : (t1 - st.t) / segs ≤ t1 - st.t := by
+        rw [div_le_iff₀ hsq]
+        have : (1 : Rat) ≤ segs := by exact_mod_cast hsegs
+        nlinarith [hinc.1]
+      linarith
+    have hsum : st.t + segs * ((t1 - st.t) / segs) = t1 := by field_simp; ring
+    have hs : st.s = P st.t := by
+      obtain ⟨l, _, hg, hl⟩ := hinv
+      have := lastOf_onCurve ⟨P, chordTest d⟩ a0 l hg
+      rw [hl] at this; exact this
+    obtain ⟨st1, hst1⟩ := spanLoop_total ⟨P, chordTest d⟩ (recSub ⟨P, chordTest d⟩ (k + 1)) close ((t1 - st.t) / segs) t1 (P t1)
+      st.t
+      (fun u0 u1 h0 h1 hlt hwd => recSub_terminates_lipschitz P L d lo hi hL hd hlip k u0 u1 (by linarith) (by linarith) hlt
+        (le_trans (mul_le_mul_of_nonneg_right (le_trans hwd hδle) hL.le) hk))
+      hδ rfl segs hsum (fun j hj => hns.1 j (by omega)) (segs + 2) 0 st (Nat.zero_le _) (by simp) hs (by omega)
+    obtain ⟨r1, r2, _⟩ := spanLoop_sound ⟨P, chordTest d⟩ _ (recSub_sound _ (k + 1)) close ((t1 - st.t) / segs) t1 (P t1) hδ rfl a0
+      st.t segs hsum (fun j hj => hns.1 j (by omega)) (segs + 2) 0 st st1 (Nat.zero_le _) (by simp) hinv hst1
+    obtain ⟨st', hst'⟩ := ih st1 (by rw [r2]; exact hinc.2) (by rw [r2]; exact hns.2) r1 (by rw [r2]; linarith [hinc.1])
+      (fun x hx => hhi x (List.mem_cons_of_mem _ hx))
+    exact ⟨st', by unfold knotLoop; rw [hst1]; exact hst'⟩
+
+/-- **`BSpline.flattening` terminates** for every evaluation function with a Lipschitz modulus `L` on the knot range
+    `[lo, hi]`: for a knot vector whose spans are wider than `segments` times the `isclose` tolerance (`GapsOK`), recursion
+    budget `k + 1` with `(hi - lo) · L ≤ distance · 2^k` and outer fuel `segments + 2` per knot span, the run returns a
+    vertex list (which `bspline_sound_gaps` describes: ≥ `segments` chords per span, every chord within `distance`) -/
+theorem bspline_terminates_lipschitz (P : Rat → V3) (L d : Rat) (hL : 0 < L) (hd : 0 < d) (relTol absTol : Rat)
+    (knots : List Rat) (segs : Nat) (t : Rat) (ks : List Rat) (hu : uniq knots = t :: ks) (hsegs : 0 < segs)
+    (h0 : 0 ≤ relTol) (hg : GapsOK relTol absTol segs t ks) (hi : Rat) (hhi : ∀ x ∈ ks, x ≤ hi)
+    (hlip : Lipschitz P L t hi) (k : Nat) (hk : (hi - t) * L ≤ d * 2 ^ k) :
+    ∃ out, bsplineFlat ⟨P, chordTest d⟩ (k + 1) relTol absTol knots segs (segs + 2) = .ok out := by
+  unfold bsplineFlat
+  rw [hu]
+  simp only
+  have hinc : StrictInc t ks := strictInc_of_pairwise t ks (by rw [← hu]; exact uniq_sorted knots)
+  have hinv0 : Inv ⟨P, chordTest d⟩ t ⟨t, P t, [(t, P t)]⟩ := ⟨[], rfl, trivial, by simp [lastOf]⟩
+  obtain ⟨st', hst'⟩ := knotLoop_total P L d t hi hL hd hlip k hk (pyIsclose relTol absTol) segs hsegs t ks
+    ⟨t, P t, [(t, P t)]⟩ hinc (noEarlySnap_of_gaps relTol absTol segs h0 ks t hinc hg) hinv0 (le_refl _) hhi
+  exact ⟨st'.out, by rw [hst']⟩
+
+/-- **total correctness of `BSpline.flattening`** (exact arithmetic): for every evaluation function with Lipschitz modulus `L` on
+    the knot range, every `distance > 0`, every `segments ≥ 1` and every knot vector meeting `GapsOK`, the run with a sufficient
+    recursion budget RETURNS a vertex list that starts at the first and ends at the last knot's curve point, has strictly
+    increasing parameters, only curve points, at least `segments` chords per knot span, and for every chord the curve point
+    at the middle parameter lies within `distance` of the chord (the documented criterion) -/
+theorem bspline_flattening_total (P : Rat → V3) (L d : Rat) (hL : 0 < L) (hd : 0 < d) (relTol absTol : Rat)
+    (knots : List Rat) (segs : Nat) (t : Rat) (ks : List Rat) (hu : uniq knots = t :: ks) (hsegs : 0 < segs)
+    (h0 : 0 ≤ relTol) (hg : GapsOK relTol absTol segs t ks) (hi : Rat) (hhi : ∀ x ∈ ks, x ≤ hi)
+    (hlip : Lipschitz P L t hi) (k : Nat) (hk : (hi - t) * L ≤ d * 2 ^ k) :
+    ∃ out, bsplineFlat ⟨P, chordTest d⟩ (k + 1) relTol absTol knots segs (segs + 2) = .ok out ∧
+      FlatSpec ⟨P, chordTest d⟩ t ((ks.getLast?).getD t) (segs * ks.length) out ∧
+      ∀ pq ∈ out.zip out.tail, WithinChord d pq.1.2 pq.2.2 (P ((pq.1.1 + pq.2.1) * (1/2))) := by
+  obtain ⟨out, hout⟩ := bspline_terminates_lipschitz P L d hL hd relTol absTol knots segs t ks hu hsegs h0 hg hi hhi hlip k hk
+  have hspec := bspline_sound_gaps ⟨P, chordTest d⟩ (k + 1) relTol absTol knots segs (segs + 2) out t ks hu hsegs h0 hg hout
+  exact ⟨out, hout, hspec, flatSpec_chord_documented P d _ _ _ out hspec⟩
+
+/-- **total correctness of `ConstructionEllipse.flattening`** (loop after the prelude, exact arithmetic): for every evaluation
+    function with Lipschitz modulus `L` on `[param, end_param]`, every `distance > 0`, `segments = n ≥ 1` equal steps without
+    early snap, the run with recursion budget `k + 1` (`delta · L ≤ distance · 2^k`) RETURNS a vertex list meeting `FlatSpec`
+    over the parameter range, and every chord meets the documented criterion -/
+theorem ellipse_flattening_total (P : Rat → V3) (L d : Rat) (hL : 0 < L) (hd : 0 < d)
+    (relTol absTol param endParam delta : Rat) (n : Nat) (hδ : 0 < delta) (hn : param + n * delta = endParam)
+    (hlip : Lipschitz P L param endParam)
+    (hnc : pyIsclose relTol absTol param endParam = false)
+    (hsnap : ∀ k : Nat, k + 1 < n → pyIsclose relTol absTol (param + ((k : Rat) + 1) * delta) endParam = false)
+    (k : Nat) (hk : delta * L ≤ d * 2 ^ k) :
+    ∃ out, ellipseFlat ⟨P, chordTest d⟩ (k + 1) relTol absTol param endParam delta (n + 2) = .ok out ∧
+      FlatSpec ⟨P, chordTest d⟩ param endParam n out ∧
+      ∀ pq ∈ out.zip out.tail, WithinChord d pq.1.2 pq.2.2 (P ((pq.1.1 + pq.2.1) * (1/2))) := by
+  obtain ⟨st, hst⟩ := spanLoop_total ⟨P, chordTest d⟩ (recSub ⟨P, chordTest d⟩ (k + 1)) (pyIsclose relTol absTol) delta
+    endParam (P endParam) param
+    (fun t0 t1 hlo hhi hlt hwd => recSub_terminates_lipschitz P L d param endParam hL hd hlip k t0 t1 hlo hhi hlt
+      (le_trans (mul_le_mul_of_nonneg_right hwd hL.le) hk))
+    hδ rfl n hn hsnap (n + 2) 0 ⟨param, P param, [(param, P param)]⟩ (Nat.zero_le _) (by simp) rfl (by omega)
+  have hinv0 : Inv ⟨P, chordTest d⟩ param ⟨param, P param, [(param, P param)]⟩ := ⟨[], rfl, trivial, by simp [lastOf]⟩
+  obtain ⟨r1, r2, r3⟩ := spanLoop_sound ⟨P, chordTest d⟩ _ (recSub_sound _ (k + 1)) (pyIsclose relTol absTol) delta
+    endParam (P endParam) hδ rfl param param n hn hsnap (n + 2) 0 _ st (Nat.zero_le _) (by simp) hinv0 hst
+  have hspec : FlatSpec ⟨P, chordTest d⟩ param endParam n st.out :=
+    inv_spec ⟨P, chordTest d⟩ param endParam n st r1 r2 (by simpa [Nat.add_comm] using r3)
+  refine ⟨st.out, ?_, hspec, flatSpec_chord_documented P d _ _ _ st.out hspec⟩
+  unfold ellipseFlat
+  simp only [hδ.ne', if_false, hnc, Bool.false_eq_true]
+  rw [hst]
+
+-- a concrete instance of the total-correctness statement: one knot span, 2 segments, budget 1 suffices for the straight curve
+#guard (bsplineFlat ⟨fun t => (⟨3 * t, 4 * t, 0⟩ : V3), chordTest (1/10)⟩ 1 (1e-9) 0 [0, 0, 1, 1] 2 4).toOption.map List.length = some 3
+example : GapsOK (1e-9) 0 2 0 [1] := by simp only [GapsOK]; norm_num
+-- non-vacuity: the straight-line "curve" t ↦ (3t, 4t, 0) has Lipschitz modulus 5
+example : Lipschitz (fun t => (⟨3 * t, 4 * t, 0⟩ : V3)) 5 0 1 := by
+  intro a b _ _ _
+  simp only [V3.dist2, V3.sub, V3.dot]
+  nlinarith [sq_nonneg (b - a)]
+
 /-! ## what the mid-point criterion says about the WHOLE chord -/
 
 /-- **quadratic Bezier curves: the mid-point test bounds the whole chord.**  On the chord `[t0, t1]` the curve point at
